@@ -329,6 +329,8 @@ def aggregate(cid, mod, tier, seed, results, wall, extra_cov=None, partial=False
         else:
             real.append(v)
 
+    if not samples:
+        samples = [{"case_class": x} for x in sorted(distinct)[:3]]
     coverage = {
         "evaluations": ev,
         "distinct_nontrivial": len(distinct),
